@@ -6,14 +6,14 @@ P = {
          'Bycycle.fit under every option set with <= 1 (quick) / <= 2 (thorough) deviations from the default plus the full '
          'option product on W(4,5); every returned table is checked for the ordering / tiling / alternation / boundary '
          'invariants and for genuine extremum kinds against the C02 reference. Preconditions come from the reference model, '
-         'so a raise inside the precondition is a violation. One set of option objects is reused for every call of a case (second fit, second call); inputs also come as strided views, integer dtype, riding on steep drifts and in lengths 36..60 incl. primes. Scale axis: four long real-valued recordings (up to 70000 samples / 1430 cycles, fs 500..2000 incl. 1017.25) x centring x method, and 5-letter words cut down to one- and two-row tables. Also constant stretches at a non-zero level and the amplitude method with a minimum burst duration.',
+         'so a raise inside the precondition is a violation. One set of option objects is reused for every call of a case (second fit, second call); inputs also come as strided views, integer dtype, riding on steep drifts and in lengths 36..60 incl. primes. Scale axis: four long real-valued recordings (up to 70000 samples / 1430 cycles, fs 500..2000 incl. 1017.25) x centring x method, and 5-letter words cut down to one- and two-row tables. Also constant stretches at a non-zero level and the amplitude method with a minimum burst duration. Wave 8: the same array object is fitted again after find_extrema_kwargs[\'boundary\'] was edited in place on the object, and the table is checked against the boundary then in force.',
     note='signals = words over integer waveform letters x global transforms (6 decades of scale, DC, negation); neurodsp filter trusted',
     technique='bounded-exhaustive enumeration of words x option deviations (deviation-bounded) on the real pipeline'),
  'C02': dict(
     text='Every signal in {-1,0,1}^10 (quick) / {-1,0,1}^12 and {-2..2}^8 (thorough) under a 5- or 9-tap band-pass, and every '
          'word of the waveform alphabet, is run through the real find_extrema for all pad x boundary x first_extrema x '
          'filter combinations and compared index-for-index with a reference half-wave model; complete enumeration gives '
-         'all tie / plateau / window-edge patterns that sampled signals miss. Scale axis: a 70000-sample recording cut at each of 64 (200) start offsets plus three more long recordings; the reference now also decides first_extrema trimming when a single peak or trough is left.',
+         'all tie / plateau / window-edge patterns that sampled signals miss. Scale axis: a 70000-sample recording cut at each of 64 (200) start offsets plus three more long recordings; the reference now also decides first_extrema trimming when a single peak or trough is left. Wave 8: every 8-sample signal over {type minimum, middle, type maximum} in int8 / int16 / uint8 (clipped integer traces).',
     note='neurodsp filter_signal trusted; inputs with no crossing in one direction skipped (undefined by the property)',
     technique='bounded-exhaustive enumeration of input signals on the real code vs reference model'),
  'C03': dict(
@@ -40,7 +40,7 @@ P = {
     text='detect_bursts_cycles is run on every synthetic table of <= 4 / 5 cycles over 13 threshold-relative profiles '
          '(values exactly on, just below, NaN) x min_n_cycles x 2 threshold vectors, on the complete {below,at,above,NaN}^4 '
          'relation product, and on the pipeline tables of all words over the complete threshold REGION grid (every order '
-         'relation between threshold and column values) with monotone-chain checks; all against a threshold-and-run reference. min_n_cycles 0..4 and each threshold at 0 / 1 are also routed through compute_features; tables handed in are already labelled. Scale axis: synthetic tables with up to 1025 (4096) runs of qualifying cycles and volt_amp over ten decades, words with giant cycles; per-epoch option lists of compute_features_2d(axis=None). Thresholds through the objects (short names, partial dictionaries) and per-signal threshold lists of compute_features_3d are routed to the same rule.',
+         'relation between threshold and column values) with monotone-chain checks; all against a threshold-and-run reference. min_n_cycles 0..4 and each threshold at 0 / 1 are also routed through compute_features; tables handed in are already labelled. Scale axis: synthetic tables with up to 1025 (4096) runs of qualifying cycles and volt_amp over ten decades, words with giant cycles; per-epoch option lists of compute_features_2d(axis=None). Thresholds through the objects (short names, partial dictionaries) and per-signal threshold lists of compute_features_3d are routed to the same rule. Wave 8: one Bycycle object, the same array fitted after each of seven in-place threshold edits (raise and lower), rule and monotonicity checked each time.',
     note='region abstraction makes "all thresholds in [0,1]" finite; one (quick) or two (thorough) thresholds leave the default at a time',
     technique=T),
  'C07': dict(
@@ -60,13 +60,13 @@ P = {
  'C09': dict(
     text='Differential, exact: for every word x option set compute_features(x, trough) is compared with '
          'compute_features(-x, peak) mapped through a hand-written column map; integer columns, labels and floats must be '
-         'identical (negation commutes exactly with IEEE arithmetic). The mirror is checked again after recompute_edges (7-letter words) and for integer / int16-near-full-scale / drifting inputs. Also every 7 (9) samples over {-1,0,1} embedded between regular cycles (ties between extrema voltages), the epoch tables of compute_features_2d(axis=None), and four long recordings. Also per-signal option lists of compute_features_2d and sample-free objects that were loaded before being fitted.',
+         'identical (negation commutes exactly with IEEE arithmetic). The mirror is checked again after recompute_edges (7-letter words) and for integer / int16-near-full-scale / drifting inputs. Also every 7 (9) samples over {-1,0,1} embedded between regular cycles (ties between extrema voltages), the epoch tables of compute_features_2d(axis=None), and four long recordings. Also per-signal option lists of compute_features_2d and sample-free objects that were loaded before being fitted. Wave 8: one set of option objects (empty burst-option dict included) shared by the peak, trough, peak calls of every case.',
     note='implementation vs implementation under an exactly commuting transformation; both burst methods',
     technique='bounded-exhaustive metamorphic enumeration on the real code'),
  'C10': dict(
     text='Differential, exact: every word x option set is re-analysed with the signal scaled by 2^k (k in -10,-3,1,10) and '
          'with (fs, f_range) multiplied by 1/2, 2, 4 (filter length in cycles); index / ratio columns and labels must be '
-         'identical and voltage columns scaled exactly. One option object is reused across the re-scaled and re-rated calls; scales 2^-50..2^40; every {-1,0,1}^9 (quick) / ^12 (thorough) signal at cyclepoint level under a 9-tap filter (filter-length sensitive). Rate factors up to 128 (fs = 8192 Hz), a band 0.5 Hz wide at fs = 16 Hz, band variants, and long recordings at fs 1000 / 500 / 1017.25. Also re-used burst options that carry a stale fs / f_range, and covariance after an analysis of the same band at an 8 x lower rate (50 start offsets).',
+         'identical and voltage columns scaled exactly. One option object is reused across the re-scaled and re-rated calls; scales 2^-50..2^40; every {-1,0,1}^9 (quick) / ^12 (thorough) signal at cyclepoint level under a 9-tap filter (filter-length sensitive). Rate factors up to 128 (fs = 8192 Hz), a band 0.5 Hz wide at fs = 16 Hz, band variants, and long recordings at fs 1000 / 500 / 1017.25. Also re-used burst options that carry a stale fs / f_range, and covariance after an analysis of the same band at an 8 x lower rate (50 start offsets). Wave 8: scale factors 2**-300, 2**-140, 2**130, 2**300 on a 300000-sample and a 6000-sample recording and a word, both methods.',
     note='powers of two only, so floating point commutes exactly and equality cannot flake',
     technique='bounded-exhaustive metamorphic enumeration on the real code'),
  'C11': dict(
@@ -79,27 +79,27 @@ P = {
  'C12': dict(
     text='All shapes (n0,n1) in {1,2,3}^2 incl. non-square and size-1 x the three axis modes x shared / 1-D / 2-D option lists x '
          'n_jobs x every feasible completion order of the outer pool are run through compute_features_3d and '
-         'BycycleGroup.fit; each slot must hold the analysis (per-signal or epoched reference) of the signal at that position. Also: one dict object repeated, Fortran-ordered arrays, progress set, and a second fit on the same group object. Scale axis: a (2, 33, 48) array (33 slices along axis 1) and a (2, 5, 14000) array (flattened slices longer than 2**16 samples); repeated signals with different per-signal options; amp-method groups. The VirtualPool takes chunksize items before serialising a batch, as multiprocessing does.',
+         'BycycleGroup.fit; each slot must hold the analysis (per-signal or epoched reference) of the signal at that position. Also: one dict object repeated, Fortran-ordered arrays, progress set, and a second fit on the same group object. Scale axis: a (2, 33, 48) array (33 slices along axis 1) and a (2, 5, 14000) array (flattened slices longer than 2**16 samples); repeated signals with different per-signal options; amp-method groups. The VirtualPool takes chunksize items before serialising a batch, as multiprocessing does. Wave 8: group-refit fits the very array object of the final fit first in another axis mode.',
     note='outer-pool completion orders from the TLC model; epoched reference shared with C13',
     technique='TLC scheduling model + exhaustive trace replay; exhaustive shape x axis x option grid'),
  'C13': dict(
     text='epoch_df is run on every synthetic cyclepoint table (T=12/14, both centrings) x every epoch length, and '
          'compute_features_2d(axis=None) on every word reshaped into epochs of 4..24 samples x option kinds; rows must '
-         'partition the flattened analysis exactly once, in order, shifted by the epoch start, with labels per the rule. Option kinds: none / dict / per-epoch list / one dict object repeated / list with entries that omit thresholds; C- and Fortran-ordered arrays; 80-sample words in 40-sample epochs so that per-epoch labels can differ. Scale axis: epoch_df on synthetic tables of 1100 (2100) cycles with closing extrema on the borders; words declared at fs 49 / 173.61 / 1017.25 / 9.8 / 250 Hz x every epoch length (sample-count <-> seconds round trips). Border cases follow the anchored half-open (first, last] rule. Lists whose last entry differs in options that shape the flattened analysis, sparse lists for both methods, positive amp_fraction thresholds.',
+         'partition the flattened analysis exactly once, in order, shifted by the epoch start, with labels per the rule. Option kinds: none / dict / per-epoch list / one dict object repeated / list with entries that omit thresholds; C- and Fortran-ordered arrays; 80-sample words in 40-sample epochs so that per-epoch labels can differ. Scale axis: epoch_df on synthetic tables of 1100 (2100) cycles with closing extrema on the borders; words declared at fs 49 / 173.61 / 1017.25 / 9.8 / 250 Hz x every epoch length (sample-count <-> seconds round trips). Border cases follow the anchored half-open (first, last] rule. Lists whose last entry differs in options that shape the flattened analysis, sparse lists for both methods, positive amp_fraction thresholds. Wave 8: trough-centred option lists are passed a second time as the same list object and the second answer is compared.',
     note='closing extremum exactly on an epoch boundary may sit in either adjacent epoch',
     technique=T),
  'C14': dict(
     text='Explicit-state BFS over operation histories (fit on two signals, recompute_edges, threshold and burst-option '
          'edits, load) on a live Bycycle object, depth 3 / 5, from 16+ initial configurations; after every fit the table '
          'must equal compute_features with the settings ledger and a fresh object; BycycleGroup.models mirror is checked '
-         'over shapes x axes. Operations include an in-place edit of a nested find_extrema_kwargs setting (with a check that freshly constructed objects still carry the documented defaults) and attribute access after every table-replacing operation. Also objects built with return_samples=False (interaction with recompute_edges). Partial threshold dictionaries as initial configurations.',
+         'over shapes x axes. Operations include an in-place edit of a nested find_extrema_kwargs setting (with a check that freshly constructed objects still carry the documented defaults) and attribute access after every table-replacing operation. Also objects built with return_samples=False (interaction with recompute_edges). Partial threshold dictionaries as initial configurations. Wave 8: every history keeps ONE array object per recording (objects and groups), so identity-keyed shortcuts in fit are reachable.',
     note='state = settings ledger + live attribute dicts + table hash; histories replayed on fresh objects',
     technique='explicit-state BFS over operation histories with canonical state hashing on the real objects'),
  'C15': dict(
     text='Fixpoint closure: ~35 API calls sharing one set of argument objects are applied from the pristine state; a pure '
          'implementation maps the pristine fingerprint to itself, so the reachable state space is one state and the '
          'statement holds for histories of every length; all ordered pairs (quick) / triples (thorough) over a core are '
-         'executed and compared with fresh-state results. The alphabet includes default-argument calls, a burst-free table, and a caller-owned buffer overwritten in place between calls. The shared argument set is built once in a separate process, so every history starts from import-time module state; the alphabet includes equal-valued twin calls (distinct string / dict objects), near-identical long inputs, fractional bands / rates, tables from gated signals, and numpy\'s small-block cache is poisoned with a step-dependent value before every call (uninitialised reads become history-dependent). A re-used analysis object (fit, recompute_edges, fit) and a rename-chain twin (table rebuilt from plain values) are part of the alphabet.',
+         'executed and compared with fresh-state results. The alphabet includes default-argument calls, a burst-free table, and a caller-owned buffer overwritten in place between calls. The shared argument set is built once in a separate process, so every history starts from import-time module state; the alphabet includes equal-valued twin calls (distinct string / dict objects), near-identical long inputs, fractional bands / rates, tables from gated signals, and numpy\'s small-block cache is poisoned with a step-dependent value before every call (uninitialised reads become history-dependent). A re-used analysis object (fit, recompute_edges, fit) and a rename-chain twin (table rebuilt from plain values) are part of the alphabet. Wave 8: calls on recordings with NaN / +-inf samples (outcome free, arguments must stay untouched).',
     note='fingerprint covers arrays, dicts, tables, pandas chained-assignment option, open figures',
     technique='explicit-state closure (BFS to fixpoint) over API calls on shared argument objects'),
  'C16': dict(
@@ -132,7 +132,7 @@ P = {
     text='Plots are drawn (Agg) for tables of bursty words x centrings x fs x every x-limit pair on a sample grid x plot '
          'switches; Line2D data is read back: every marker must be a genuine cyclepoint of its kind at (s/fs, signal[s]), '
          'every cyclepoint strictly inside the view present, the burst highlight within / covering is_burst cycles, '
-         'parameter panels at cycle centres with the threshold line. Scale axis: a 140000-sample recording at fs = 1000 (full view and windows at 10 / 110 / 119 s). A saw-tooth word with one-sample flanks; quick windows starting at samples 29 / 57 / 58 (float residue of start * fs).',
+         'parameter panels at cycle centres with the threshold line. Scale axis: a 140000-sample recording at fs = 1000 (full view and windows at 10 / 110 / 119 s). A saw-tooth word with one-sample flanks; quick windows starting at samples 29 / 57 / 58 (float residue of start * fs). Wave 8: thresholds that two decimals cannot represent (.125, .4375, .515625, .609375; .46875 for amp), so a line drawn at a rounded threshold shows.',
     note='artist data, not pixels',
     technique=T),
 }
